@@ -545,7 +545,12 @@ class X12LoopDataNode(X12DataNode):
         ret.end_loops = list(self.end_loops)
         ret.parent = self.parent
         for child in self.children:
-            ret.children.append(child.copy())
+            if child.type is None:
+                # deleted, awaiting cleanup
+                continue
+            new_child = child.copy()
+            new_child.parent = ret
+            ret.children.append(new_child)
         return ret
 
     @property
